@@ -457,6 +457,78 @@ func c19SendDisconnect(seed int64) []int64 {
 	return []int64{1, 0}
 }
 
+// c19StopBusyReconnect (C13): the server stops a connection whose write routine is busy with a large message to a
+// peer that does not read; until that connection has really ended (disconnected callback), another connection with
+// the same id must be refused, and afterwards a new one must work.
+func c19StopBusyReconnect() []int64 {
+	srv := ws.NewServer()
+	srv.AddSupportedSubprotocol("ocpp1.6")
+	cfg := ws.NewServerTimeoutConfig()
+	cfg.WriteWait = 1500 * time.Millisecond
+	cfg.PingWait = 0
+	srv.SetTimeoutConfig(cfg)
+	srv.SetMessageHandler(func(c ws.Channel, data []byte) error { return nil })
+	var news, gones int64
+	srv.SetNewClientHandler(func(c ws.Channel) { atomic.AddInt64(&news, 1) })
+	srv.SetDisconnectedClientHandler(func(c ws.Channel) { atomic.AddInt64(&gones, 1) })
+	go srv.Start(0, "/{ws}")
+	port := c19WaitAddr(srv)
+	if port == 0 {
+		return []int64{-3}
+	}
+	defer srv.Stop()
+	dial := func() (*websocket.Conn, error) {
+		c, _, err := (&websocket.Dialer{Subprotocols: []string{"ocpp1.6"}, HandshakeTimeout: 2 * time.Second}).Dial(fmt.Sprintf("ws://127.0.0.1:%d/cpX", port), nil)
+		return c, err
+	}
+	a, err := dial()
+	if err != nil {
+		return []int64{-4}
+	}
+	defer a.Close()
+	if !waitFor(2*time.Second, func() bool { return atomic.LoadInt64(&news) == 1 }) {
+		return []int64{-5}
+	}
+	_ = srv.Write("cpX", make([]byte, 64<<20)) // A never reads: the write routine blocks until WriteWait
+	time.Sleep(50 * time.Millisecond)
+	_ = srv.StopConnection("cpX", websocket.CloseError{Code: websocket.CloseNormalClosure})
+	time.Sleep(20 * time.Millisecond)
+	refused := int64(0)
+	if atomic.LoadInt64(&gones) == 0 { // A has not ended yet: B must be turned away
+		b, err := dial()
+		if err != nil {
+			refused = 1
+		} else {
+			_ = b.SetReadDeadline(time.Now().Add(2 * time.Second))
+			if _, _, rerr := b.ReadMessage(); rerr != nil && websocket.IsCloseError(rerr, websocket.ClosePolicyViolation) {
+				refused = 1
+			}
+			b.Close()
+		}
+		if atomic.LoadInt64(&news) != 1 {
+			refused = 0
+		}
+	} else {
+		refused = 1 // the window did not open on this run (the write went through): nothing to check
+	}
+	if !waitFor(6*time.Second, func() bool { return atomic.LoadInt64(&gones) >= 1 }) {
+		return []int64{-8}
+	}
+	time.Sleep(30 * time.Millisecond)
+	c, err := dial()
+	works := int64(0)
+	if err == nil {
+		if waitFor(2*time.Second, func() bool { _, ok := srv.GetChannel("cpX"); return ok }) && srv.Write("cpX", []byte("x")) == nil {
+			works = 1
+		}
+		c.Close()
+	}
+	if refused == 1 && works == 1 && atomic.LoadInt64(&gones) >= 1 {
+		return []int64{1, 0}
+	}
+	return []int64{0, refused, works, atomic.LoadInt64(&news), atomic.LoadInt64(&gones)}
+}
+
 func c19Eval(in []int64) []int64 {
 	if len(in) < 3 {
 		return []int64{-1}
@@ -476,8 +548,10 @@ func c19Eval(in []int64) []int64 {
 		return c19SendStop(in[1])
 	case 6:
 		return c19SendDisconnect(in[1])
-	case 7, 8, 9, 10, 11, 12:
+	case 7, 8, 9, 10, 11, 12, 13, 14:
 		return gatedEval(in)
+	case 15:
+		return c19StopBusyReconnect()
 	}
 	return []int64{-1}
 }
